@@ -249,6 +249,35 @@ def one_op(T, line, k):
                 else:
                     g = (kk.group(1) if kk else "0") if v == "yes" else "0"
                 return "ok %s %s" % (v, g) + TRAILER
+            if op == "repmat":
+                directed, outs = int(tk[1]), int(tk[2])
+                nn, ne = int(tk[3]), int(tk[4])
+                es = [(int(tk[5 + 3 * i]), int(tk[6 + 3 * i]), int(tk[7 + 3 * i])) for i in range(ne)]
+                pos = 5 + 3 * ne
+                nF = int(tk[pos]); F = [int(x) for x in tk[pos + 1:pos + 1 + max(nF, 0)]]; pos += 1 + max(nF, 0)
+                nK = int(tk[pos]); K = [int(x) for x in tk[pos + 1:pos + 1 + max(nK, 0)]]
+                if nF < 0 or nK < 0 or sorted(F + K) != list(range(ne)) or ne == 0: return "skip-cli"
+                # node names that are not sequential numbers (the reader hashes them)
+                import hashlib
+                names = ["n%s" % hashlib.md5(("%d/%d" % (k, v)).encode()).hexdigest()[:(3 + v % 3)] for v in range(nn)]
+                if len(set(names)) != nn: return "skip-cli"
+                label = {}
+                for i, e in enumerate(F): label[e] = "r%d" % (i + 1)
+                for i, e in enumerate(K): label[e] = "c%d" % (i + 1)
+                txt = ""
+                for i, (u, v, r) in enumerate(es):
+                    a, b = (v, u) if (r and directed) else (u, v)
+                    txt += "%s %s %s\n" % (names[a], names[b], label[i])
+                write("graph.txt", txt)
+                transposed = (outs == 2)
+                args = ["-c", "graph.txt", "out.txt", "-o", "dense"] + (["-t"] if transposed else [])
+                rc, out, err = T.run("cmr-network" if directed else "cmr-graphic", args, d)
+                res = parse_dense(read("out.txt"))
+                if rc != 0 or res is None:
+                    if rc != 0 and not re.search(r"Sanitizer|Assertion|runtime error", err): return "err:CLI%d" % rc + TRAILER
+                    return crash_summary(rc, err or "no output matrix")
+                # isolated nodes do not appear in an edge list: the judge is told the number of nodes that do
+                return "ok correct=?%s%s" % ((" -" + csr_tokens(*res)) if transposed else (csr_tokens(*res) + " -"), "") + TRAILER
             if op == "mat":
                 what, ty = tk[1], tk[2]
                 if ty not in ("c", "i") or what not in ("transpose", "support", "ssupport", "copy"): return "skip-cli"
@@ -270,5 +299,8 @@ def one_op(T, line, k):
 
 def run_cli(tooldir, lines, env, nproc=16):
     T = Tools(tooldir, env)
+    import hashlib
+    # the per-op variation (input format, node names) derives from the op line itself, so that a replay reproduces it
+    key = lambda l: int(hashlib.md5(l.encode()).hexdigest()[:8], 16)
     with ThreadPoolExecutor(nproc) as ex:
-        return list(ex.map(lambda kl: one_op(T, kl[1], kl[0]), enumerate(lines)))
+        return list(ex.map(lambda l: one_op(T, l, key(l)), lines))
